@@ -181,6 +181,23 @@ def name_error_oracle(ctx, res, api, spec, payload):
                      f"({len(und)} such read(s): {sorted({u[0] for u in und})[:6]})", payload)
 
 
+def t2_proto_names(ctx, api, payload):
+    """`Proto.names` of every target file (the collision set bound into its addresses) vs `protoNames` of the model: the names of enums,
+    messages and fields plus every imported module name that two distinct proto packages contribute over ALL messages of the file"""
+    protos = [p for p in api.protos.values() if p.file_to_generate]
+    ops = []
+    for p in protos:
+        plain = sorted({e.name for e in p.all_enums.values()} | {m.name for m in p.all_messages.values()} | {f.name for m in p.all_messages.values() for f in m.fields.values()})
+        msgs = [[{"module": t.ident.module, "package": ".".join(t.ident.package)} for t in m.recursive_field_types] for m in p.all_messages.values()]
+        ops.append({"op": "c01.names", "plain": plain, "msgs": msgs})
+    for p, mo in zip(protos, ctx.driver.ask(ops)):
+        ctx.traces += 1
+        ctx.count("proto_names", "collision" if mo.get("collisions") else "none")
+        if set(mo.get("names", [])) != set(p.names):
+            ctx.disagree("T2:c01.names", f"{p.name}: Proto.names has {sorted(set(p.names) - set(mo.get('names', [])))} beyond the model, the model has "
+                         f"{sorted(set(mo.get('names', [])) - set(p.names))} beyond the code (module collisions of the model: {sorted(set(mo.get('collisions', [])))})", payload)
+
+
 def static_import_oracle(ctx, res, api, spec, payload):
     """ORACLE (independent of the model): every import statement between modules of the emitted package that is executed
     unconditionally when its module is imported names an emitted module, and every name taken `from` it is a sub-module or is
@@ -803,6 +820,49 @@ def paged_items_named_mutable_sequence(files, targets):
     return out
 
 
+def import_rebinds(res, roots):
+    """[(file, local name, [source modules in order])]: module-level import statements of one emitted library module that bind the same
+    local name from two different modules (the later one wins)"""
+    out = []
+    for f in res.file:
+        if not f.name.endswith(".py") or f.name.startswith(LIB_SKIP) or "/" not in f.name:
+            continue
+        parts = f.name.split("/")[:-1]
+        if not any(parts[:len(r)] == r for r in roots):
+            continue
+        try:
+            tree = ast.parse(f.content)
+        except SyntaxError:
+            continue
+        seen = {}
+        for node, hard in _import_nodes(tree):
+            if not hard:
+                continue
+            if isinstance(node, ast.ImportFrom) and not node.level and node.module:
+                for a in node.names:
+                    seen.setdefault(a.asname or a.name, []).append(f"{node.module}.{a.name}")
+            elif isinstance(node, ast.Import):
+                for a in node.names:
+                    if a.asname:
+                        seen.setdefault(a.asname, []).append(a.name)
+        out += [(f.name, nm, srcs) for nm, srcs in seen.items() if len(set(srcs)) > 1]
+    return out
+
+
+def alias_initials(package, version):
+    """the prefix `Address.module_alias` builds from a proto package (first letters of the `_` parts of every segment but the version)"""
+    return "".join(part[0] for seg in package.split(".") if seg != version for part in seg.split("_") if part)
+
+
+def same_initials_twins(files, targets, version):
+    """{module base name: [target files]} for base names carried by two target files whose proto packages differ but have the same alias
+    initials (`acme.lib.v1.admin` / `acme.lib.v1.audit` -> `ala`): `module_alias` gives both the same alias"""
+    by = {}
+    for f in _target_pbs(files, targets):
+        by.setdefault((_file_module(f), alias_initials(f.package, version)), []).append(f)
+    return {k[0]: v for k, v in by.items() if len({f.package for f in v}) > 1}
+
+
 def services_in_subpackages(files, targets, api_pkg):
     """names of the services declared in a target file whose proto package lies strictly below the API package"""
     return {sv.name for f in _target_pbs(files, targets) if f.package != api_pkg and f.package.startswith(api_pkg + ".") for sv in f.service}
@@ -815,7 +875,75 @@ SHADOWED_ATTRS = {"retries": {"Retry", "AsyncRetry"}, "logging": {"getLogger"}, 
 
 
 
+# ---- same-named modules in two packages of the API (module-alias collisions) --------------------------------------------------------
+COLLISION_LAYOUTS = [("root", "admin"), ("admin", "billing"), ("admin", "audit"), ("admin", "root")]     # (package of common #1, of common #2); "root" = the API package
+COLLISION_SHAPES = ["one_message", "two_messages", "two_messages_enum", "message_and_request", "nested_in_two", "nested_siblings", "map_and_repeated",
+                    "method_outputs"]
+
+
+def collision_spec(layout, shape, tr="grpc+rest", lib_in=None):
+    pkg = "acme.lib.v1"
+    return {"pkg": pkg, "collision": {"layout": list(layout), "shape": shape, "lib_in": lib_in}, "dep_pkg": False, "sub": "admin", "service_in_sub": bool(lib_in),
+            "service_yaml": False, "ads": False, "files": [], "opts": [f"transport={tr}", "autogen-snippets=false"], "transport": tr.split("+")}
+
+
+def build_collision(spec):
+    """two files called common.proto in two proto packages of the API (the API package and a sub-package, or two sub-packages), and
+    lib.proto whose messages use a type of each: from ONE message, from two unrelated messages, from a message and an RPC request declared
+    in another file, from nested messages.  Whatever the spelling, the emitted modules must tell the two `common` modules apart."""
+    c = spec["collision"]
+    pkg = spec["pkg"]
+    def pk(x): return pkg if x == "root" else pkg + "." + x
+    p1, p2 = pk(c["layout"][0]), pk(c["layout"][1])
+    c1 = apigen.File("/".join(p1.split(".")) + "/common.proto", p1)
+    tag = c1.msg("Tag"); tag.field("name"); genre = c1.enum("Genre", ["GENRE_UNSPECIFIED", "FICTION"])
+    c2 = apigen.File("/".join(p2.split(".")) + "/common.proto", p2)
+    audit = c2.msg("Audit"); audit.field("who"); level = c2.enum("Level", ["LEVEL_UNSPECIFIED", "HIGH"])
+    lpkg = pk(c["lib_in"]) if c.get("lib_in") else pkg
+    lib = apigen.File("/".join(lpkg.split(".")) + "/lib.proto", lpkg); lib.dep(c1.name, c2.name)
+    book = lib.msg("Book"); book.field("name")
+    shelf = lib.msg("Shelf"); shelf.field("name")
+    files = [c1, c2, lib]
+    host = lib
+    shape = c["shape"]
+    rq_extra = None
+    if shape == "one_message":
+        book.field("tag", "message", type_name=tag); book.field("audit", "message", type_name=audit)
+    elif shape == "two_messages":
+        book.field("tag", "message", type_name=tag); shelf.field("audit", "message", type_name=audit)
+    elif shape == "two_messages_enum":
+        book.field("genre", "enum", type_name=genre); shelf.field("level", "enum", type_name=level)
+    elif shape == "message_and_request":
+        book.field("tag", "message", type_name=tag)
+        host = apigen.File("/".join(lpkg.split(".")) + "/lib_service.proto", lpkg); host.dep(c1.name, c2.name, lib.name); files.append(host)
+        rq_extra = audit
+    elif shape == "nested_in_two":
+        d = book.nested("Detail"); d.field("tag", "message", type_name=tag); book.field("detail", "message", type_name=d)
+        q = shelf.nested("Part"); q.field("audit", "message", type_name=audit); shelf.field("part", "message", type_name=q)
+    elif shape == "nested_siblings":
+        d = book.nested("Detail"); d.field("tag", "message", type_name=tag)
+        q = book.nested("Part"); q.field("level", "enum", type_name=level)
+        book.field("detail", "message", type_name=d); book.field("part", "message", type_name=q)
+    elif shape == "map_and_repeated":
+        book.map_field("tags", "string", "message", vtype_name=tag); shelf.field("audits", "message", repeated=True, type_name=audit)
+    svc = host.service("Library")
+    rq = host.msg("GetBookRequest"); rq.field("name", "string", 1)
+    if rq_extra is not None:
+        rq.field("audit", "message", type_name=rq_extra)
+    svc.method("GetBook", rq, book, http=("post", "/v1/{name=books/*}:get"), body="*")
+    rq2 = host.msg("GetShelfRequest"); rq2.field("name", "string", 1)
+    svc.method("GetShelf", rq2, shelf, http=("get", "/v1/{name=shelves/*}"))
+    if shape == "method_outputs":      # lib.proto's MESSAGES name neither module: only two RPCs of the service do
+        rq3 = host.msg("GetTagRequest"); rq3.field("name", "string", 1)
+        svc.method("GetTag", rq3, tag, http=("get", "/v1/{name=tags/*}"))
+        rq4 = host.msg("GetAuditRequest"); rq4.field("name", "string", 1)
+        svc.method("GetAudit", rq4, audit, http=("get", "/v1/{name=audits/*}"))
+    return files, files
+
+
 def build(spec):
+    if "collision" in spec:
+        return build_collision(spec)
     if "cycle" in spec:
         return build_cycle(spec)
     if "only_ref" in spec:
@@ -989,6 +1117,7 @@ def run_case(ctx, spec, label):
                 return
         api, o = genrun.build_api(req)
         ex0 = api.all_library_settings[api.naming.proto_package].python_settings.experimental_features
+        t2_proto_names(ctx, api, payload)
         static_import_oracle(ctx, res, api, spec, payload)
         sample_import_oracle(ctx, res, api, payload)
         name_error_oracle(ctx, res, api, spec, payload)
@@ -1020,6 +1149,24 @@ def run_case(ctx, spec, label):
             etxt = str(imp.get("errors") or imp)
             import re as _re4
             tfiles = {_file_module(f) for f in _target_pbs(files, targets)}
+            # (0) exhibit: the AttributeError names a module that a SECOND import statement bound to a name an earlier import had bound to
+            # another module (the first module is the one that has the attribute): the two imports needed different aliases
+            detail = ""
+            mattr = _re4.search(r"AttributeError', \"module '([\w.]+)' has no attribute '(\w+)'", etxt)
+            if mattr:
+                nsd0 = list(api.naming.module_namespace)
+                reb = [(fn, nm, srcs) for fn, nm, srcs in import_rebinds(res, [nsd0 + api.naming.versioned_module_name.split(".")]) if srcs[-1] == mattr.group(1)]
+                if reb:
+                    key = "import-error:import-rebinds-module-name"
+                    detail = f"; {reb[0][0]} binds `{reb[0][1]}` by imports of {reb[0][2]}"
+                    # known finding: the two modules are same-named files of two packages with the SAME alias initials, and the missing
+                    # attribute is declared in the twin
+                    twins = same_initials_twins(files, targets, api.naming.version).get(mattr.group(1).split(".")[-1], [])
+                    decl = {f.package: {m.name for m in f.message_type} | {e.name for e in f.enum_type} for f in twins}
+                    base0 = mattr.group(1).split(".")[-1]
+                    aliased = bool(twins) and any(r0[1] == f"{alias_initials(twins[0].package, api.naming.version)}_{base0}" for r0 in reb)
+                    if aliased and len(twins) > 1 and any(mattr.group(2) in names for names in decl.values()) and all(s0.split(".")[-1] == reb[0][2][0].split(".")[-1] for s0 in reb[0][2]):
+                        key = "import-error:module-alias-collision-same-initials"
             # (1) trigger: async-REST experiment on and gRPC not requested; symptom: the one module async_client.py imports unconditionally is missing
             if (ex0.rest_async_io_enabled and "grpc" not in o.transport and "ModuleNotFoundError" in etxt
                     and _re4.search(r"No module named '[\w.]+\.transports\.grpc_asyncio'", etxt)):
@@ -1048,7 +1195,7 @@ def run_case(ctx, spec, label):
             cyc = packages_on_cycle(files, targets)
             if mpi and cyc and any(_file_module(f) == mpi.group(1) and f.package in cyc for f in _target_pbs(files, targets)):
                 key = "import-error:package-level-import-cycle"
-            ctx.fail(key, f"package {pkg} does not import: {str(imp.get('errors') or imp)[:400]}", payload)
+            ctx.fail(key, f"package {pkg} does not import: {str(imp.get('errors') or imp)[:400]}{detail}", payload)
             return
         ex = api.all_library_settings[api.naming.proto_package].python_settings.experimental_features
         mo = ctx.driver.ask([{"op": "c01.registry", "transport": list(o.transport), "restAsync": bool(ex.rest_async_io_enabled)}])[0]
@@ -1124,6 +1271,17 @@ def run(ctx):
     for k, spec in enumerate(cycle_specs()):
         run_case(ctx, spec, f"cycle{k}")
         ctx.case({"cycle": spec["cycle"]}, distinct_key=["cycle", spec["cycle"]])
+    # same-named modules in two packages of the API, referenced from one message / two messages / a message and a request / nested messages
+    rc = ctx.rng("collision")
+    allc = [(lay, sh) for lay in COLLISION_LAYOUTS for sh in COLLISION_SHAPES]
+    fixedc = [(("root", "admin"), "two_messages"), (("admin", "billing"), "two_messages"), (("root", "admin"), "nested_in_two"), (("admin", "audit"), "one_message")]
+    restc = [c for c in allc if c not in fixedc]
+    rc.shuffle(restc)
+    for k, (lay, sh) in enumerate(fixedc + restc[:ctx.n(5, len(restc))]):
+        spec = collision_spec(lay, sh, tr=rc.pick(["grpc", "rest", "grpc+rest"]), lib_in="admin" if lay == ("admin", "root") else None)
+        run_case(ctx, spec, f"collision{k}")
+        ctx.count("collision", f"{'+'.join(lay)}:{sh}")
+        ctx.case({"collision": [list(lay), sh]} if k < 2 else None, distinct_key=["collision", list(lay), sh, spec["opts"][0]])
     # one file references another in exactly one way (map value, oneof member, nested field, LRO type, method input/output, ...)
     ro = ctx.rng("only-ref")
     matrix = only_ref_matrix()
@@ -1165,7 +1323,7 @@ CLAIM = dict(
          "the files the generator renders — every API shape, every view incl. sub-packages, every service — unless the async-REST experiment "
          "is on without gRPC (hypothesis proved necessary; open finding); the registry's classes are the ones client.py imports; the client "
          "names the package __init__ asks for are bound by the service package; utils.empty characterised line by line. Tie: T1 bridge of the "
-         "template lists; T2 utils.empty / the keep-or-drop test; T3 the imported clients' registry/default/async presence, the emitted file-name "
+         "template lists; T2 utils.empty / the keep-or-drop test, Proto.names (module collisions counted over the whole file: theorem collision_across_messages); T3 the imported clients' registry/default/async presence, the emitted file-name "
          "set, and per service the emitted modules and the import statements of each (AST) vs the model. Oracle also names every unconditional "
          "import between emitted modules that cannot succeed (module not emitted / name not bound). The clause `every .py parses, the "
          "package and all sub-modules import, JSON artefacts parse` is decided by EXECUTION on every generated case (compile(), fresh-"
